@@ -4,7 +4,11 @@
    Build (in the directory holding lin.ml, lin.mli and a copy of this file):
      ocamlfind ocamlopt -w -a lin.mli lin.ml lincheck_main.ml -o lincheck
 
-   Usage:   lincheck [-lp] <spec> [cap]        (reads stdin, writes stdout)
+   Usage:   lincheck [-lp | -nomemo] <spec> [cap]        (reads stdin, writes stdout)
+
+     By default the verdict is computed by Lin.lincheck_memo (search with a cache of dead
+     ends; LinProofs.lincheck_memo_eq proves it equal to Lin.lincheck); -nomemo calls
+     Lin.lincheck itself.  The two always print the same verdicts.
 
      <spec> ::= fifo | bfifo <cap> | stack | deque | pqueue | bpqueue <cap> | set | map
                 (<cap> is a non-negative integer: the capacity of the bounded container)
@@ -53,7 +57,9 @@
    if nothing was reported yet).  Exit status: 0, or 2 if some history had an ERROR.
 
    The verdicts OK / NOTLIN are backed by Coq theorems (coq/Proofs/LinProofs.v):
-     lincheck_iff : lincheck S h = true <-> wf_history h /\ linearizable S h.
+     lincheck_iff     : lincheck S h = true <-> wf_history h /\ linearizable S h
+     lincheck_memo_eq : (forall a b, eqb a b = true -> a = b) -> lincheck_memo S eqb h = lincheck S h
+   with eqb = Specs.zlist_eqb (zzlist_eqb for map), proved sound in Specs.v.
    This file only parses text and converts integers; it is part of the trusted base. *)
 
 open Lin
@@ -148,16 +154,17 @@ let parse_event ~(lp : bool) (k : kind) (toks : string list) : aev =
 
 let usage () =
   prerr_endline
-    "usage: lincheck [-lp] (fifo | bfifo <cap> | stack | deque | pqueue | bpqueue <cap> | set | map)";
+    "usage: lincheck [-lp | -nomemo] (fifo | bfifo <cap> | stack | deque | pqueue | bpqueue <cap> | set | map)";
   exit 64
 
 let () =
   let args = List.tl (Array.to_list Sys.argv) in
   let lp, args = match args with "-lp" :: r -> true, r | r -> false, r in
+  let memo, args = match args with "-nomemo" :: r -> false, r | r -> true, r in
   let cap_of s = match int_of_string_opt s with Some n when n >= 0 -> nat_of_int n | _ -> usage () in
   let (sp : spec), (k : kind) =
     match args with
-    | ["fifo"] | ["queue"] -> fifo, KFifo
+    | ["fifo"] -> fifo, KFifo
     | ["bfifo"; c] -> bFifo (cap_of c), KFifo
     | ["stack"] -> stack, KStack
     | ["deque"] -> deque, KDeque
@@ -179,7 +186,11 @@ let () =
          else begin
            let h = erase sp tr in
            if not (wf_historyb sp h) then print_endline "MALFORMED"
-           else print_endline (if lincheck sp h then "OK" else "NOTLIN")
+           else
+             let st_eqb : st -> st -> bool =
+               match k with KMap -> Obj.magic zzlist_eqb | _ -> Obj.magic zlist_eqb in
+             let ok = if memo then lincheck_memo sp st_eqb h else lincheck sp h in
+             print_endline (if ok then "OK" else "NOTLIN")
          end);
     incr reported; events := []; error := None
   in
